@@ -107,7 +107,9 @@ fn raw(i: usize, f: &RFoot, sound_bits: bool) -> RawCandidate {
         scope_hash,
         rule_id,
         compact_rule: 1,
-        scope: node_key(0, (i % 12) as u8),
+        // the instance a candidate is scoped in is independent of the instances its footprint
+        // names (a descended rewrite reads portal slots of its parent instance): vary it
+        scope: node_key(((i + f.m[1].iter().map(|x| *x as usize).sum::<usize>()) % 2) as u8, (i % 12) as u8),
         footprint: f.to_real(sound_bits),
         tag: i as u64,
     }
